@@ -270,7 +270,8 @@ def metavars_arms(ctx, py: PyRepo):
             plug, own = f'self.inst[{v}].metavars()' in acts, (f'.add({v})' in acts or f'{{{v}}}' in acts)
             if bound is None or (bound and not (plug and not own)) or (not bound and not (own and not plug)):
                 ok = False
-    delegated = any(isinstance(n, ast.Return) and n.value is not None and ast.unparse(n.value) == 'self.simplify().metavars()' for n in ast.walk(fn))
+    from .c16 import returned_exprs
+    delegated = any(ast.unparse(v) == 'self.simplify().metavars()' for _st, v in returned_exprs(fn))
     ctx.ob('metavars-arm', 'Instantiate', ok or delegated,
            'Instantiate.metavars() must replace each metavariable of the body by the metavariables of its plug (or keep it when unbound), '
            'or delegate to the expansion', py.where('pattern', fn))
